@@ -124,11 +124,13 @@ def qualify(name):
                 # macro-generated harnesses: some_macro!(harness_name, ...)
                 for m in re.finditer(r"^\w+!\(\s*(\w+)\s*[,)]", txt, re.M):
                     _QUAL.setdefault(m.group(1), "internal::verif::%s::%s" % (fn[:-3], m.group(1)))
+    if name not in _QUAL and re.match(r"dir_(rm|ins|look)_", name):
+        return "internal::verif::h_dir::" + name  # generated by vlib/shapes.py
     return _QUAL.get(name, name)
 
 
 def run_harness(crate_dir, target_dir, name, timeout_s, mem_gb, log_path,
-                memsafe=False, playback=None, extra=None, unwind=None):
+                memsafe=False, playback=None, extra=None, unwind=None, fs=4096):
     """One cargo-kani process for one harness (exact name match)."""
     cmd = ["cargo", "kani", "-Z", "stubbing", "--harness", qualify(name), "--exact", "--target-dir", target_dir]
     if not memsafe:
@@ -139,6 +141,10 @@ def run_harness(crate_dir, target_dir, name, timeout_s, mem_gb, log_path,
         cmd += ["--default-unwind", str(unwind)]
     if extra:
         cmd += extra
+    # CBMC only constant-propagates through arrays it treats field-sensitively
+    # (default: <= 64 elements).  The byte images are larger; raising the limit
+    # turns minutes of symbolic execution into seconds.  Must be the last flag.
+    cmd += ["-Z", "unstable-options", "--cbmc-args", "--max-field-sensitivity-array-size", str(fs)]
     res = Result(name)
     res.log = log_path
     t0 = time.time()
